@@ -66,39 +66,43 @@ func (th *thread) unitArg(v Value, what string) {
 
 // ---- locks, condition variables, waitgroups ----------------------------------------
 
+// Locks and waitgroups are numbered together, in order of first appearance in
+// the trace (as verif/simrt numbers the Go side's objects).
 func (m *machine) lockOrd(l *lockObj) int {
 	if l.ord < 0 {
-		l.ord = m.nLock
-		m.nLock++
+		l.ord = m.nSync
+		m.nSync++
 	}
 	return l.ord
 }
 
 func (m *machine) wgOrd(w *wgObj) int {
 	if w.ord < 0 {
-		w.ord = m.nWg
-		m.nWg++
+		w.ord = m.nSync
+		m.nSync++
 	}
 	return w.ord
 }
 
 // acquire blocks until the lock is free and takes it in the same step.
 func (th *thread) acquire(l *lockObj) {
-	th.wait("lock "+strconv.Itoa(l.id), func() bool { return !l.held })
-	l.held = true
-	th.vc = join(th.vc, l.vc)
-	th.m.event(th, "acquire", th.m.lockOrd(l), 0)
+	th.waitThen("lock "+strconv.Itoa(l.id), func() bool { return !l.held }, func() {
+		l.held = true
+		th.vc = join(th.vc, l.vc)
+		th.m.event(th, "acquire", th.m.lockOrd(l), 0)
+	})
 }
 
 func (th *thread) release(l *lockObj) {
-	th.step(siteSync)
 	if !l.held {
 		th.stuck("lock.release of lock %d, which is not held", l.id)
 	}
-	l.held = false
-	l.vc = append(l.vc[:0], th.vc...)
-	th.tickClock()
-	th.m.event(th, "release", th.m.lockOrd(l), 0)
+	th.syncStep("unlock "+strconv.Itoa(l.id), func() {
+		l.held = false
+		l.vc = append(l.vc[:0], th.vc...)
+		th.tickClock()
+		th.m.event(th, "release", th.m.lockOrd(l), 0)
+	})
 }
 
 func (th *thread) lockOf(v Value, what string) *lockObj {
@@ -107,6 +111,7 @@ func (th *thread) lockOf(v Value, what string) *lockObj {
 
 func (th *thread) condWait(c Value, what string) Value {
 	l := th.lockOf(loc(th.objAt(c, kCond, what).v.n), what)
+	th.m.yieldHint = true
 	th.release(l)
 	th.acquire(l)
 	return Unit
@@ -114,11 +119,12 @@ func (th *thread) condWait(c Value, what string) Value {
 
 func (th *thread) wgAdd(v Value, delta uint64, what string) Value {
 	w := th.objAt(v, kWg, what).v.x.(*wgObj)
-	th.step(siteSync)
-	w.n += delta
-	w.vc = join(w.vc, th.vc)
-	th.tickClock()
-	th.m.event(th, "wg-add", th.m.wgOrd(w), int64(delta))
+	th.syncStep("waitgroup-add "+strconv.Itoa(w.id), func() {
+		w.n += delta
+		w.vc = join(w.vc, th.vc)
+		th.tickClock()
+		th.m.event(th, "wg-add", th.m.wgOrd(w), int64(delta))
+	})
 	return Unit
 }
 
@@ -157,13 +163,14 @@ func init() {
 	def("waitgroup.Done", 1, func(th *thread, a []Value) Value { return th.wgAdd(a[0], ^uint64(0), "waitgroup.Done") })
 	def("waitgroup.Wait", 1, func(th *thread, a []Value) Value {
 		w := th.objAt(a[0], kWg, "waitgroup.Wait").v.x.(*wgObj)
-		th.wait("waitgroup "+strconv.Itoa(w.id), func() bool { return w.n == 0 })
-		th.vc = join(th.vc, w.vc)
-		th.m.event(th, "wg-wait", th.m.wgOrd(w), 0)
+		th.waitThen("waitgroup "+strconv.Itoa(w.id), func() bool { return w.n == 0 }, func() {
+			th.vc = join(th.vc, w.vc)
+			th.m.event(th, "wg-wait", th.m.wgOrd(w), 0)
+		})
 		return Unit
 	})
 
-	def("time.Sleep", 1, func(th *thread, a []Value) Value { th.step(siteExt); return Unit })
+	def("time.Sleep", 1, func(th *thread, a []Value) Value { th.m.yieldHint = true; th.step(siteExt); return Unit })
 	def("time.TimeNow", 1, func(th *thread, a []Value) Value { th.m.clock++; return U64(th.m.clock) })
 
 	// ---- constants and control ----
@@ -615,7 +622,7 @@ func structPrim(s *structOp, p *Program, d *StructDecl) *builtin {
 	var ft Type
 	var idx int
 	var off uint64
-	if s.field != "" || (s.op != "struct.alloc" && s.op != "struct.load" && s.op != "struct.store") {
+	if s.op != "struct.alloc" && s.op != "struct.load" && s.op != "struct.store" {
 		if idx = d.field(s.field); idx < 0 {
 			return bad("stuck", fmt.Sprintf("no field %q", s.field))
 		}
